@@ -42,10 +42,11 @@ def collection_to_gff3(
     """
     # if we are in chromosome relative coordinates and we are exporting sequences, we need to verify that
     # none of the collections are chunk-relative
-    if chromosome_relative_coordinates and add_sequences:
-        # this is turned into a list here because under these conditions, the collections iterable
-        # must be validated before export.
+    if add_sequences:
+        # this is turned into a list here because with sequences the collections iterable is walked more than once
+        # (validation, sequence-region headers, rows, FASTA records)
         collections = list(collections)
+    if chromosome_relative_coordinates and add_sequences:
         for c in collections:
             if c.has_ancestor_of_type(SequenceType.SEQUENCE_CHUNK):
                 raise GFF3ExportException(
